@@ -20,7 +20,11 @@ for j in JOBS:
     r = int(j['name'].split('rank=')[1].rstrip(']'))
     j['tiers'] = ('quick', 'thorough') if r <= 4 else ('thorough',)
 JOBS.append(dict(name='DataArray_ioRead', bodies=['DataArray_ioRead'], enforce=['DataArray_ioRead'], replace=[], includes=['nd.h', 'c01_read.h'], extra_c=READ_EXTRA, expect_kinds=['postcondition'], timeout=600))
-SPEC = dict(contracts=['nd.h', 'dv.h', 'c01_append.h', 'c01_read.h'], stubs=['dataarray.h'], include_order=['nd.h', 'dataarray.h', 'dv.h', 'c01_append.h'], units=UNITS, jobs=JOBS,
+UNITS['DataSet_setExtent'] = dict(file='backend/hdf5/h5x/H5DataSet.cpp', locator=r'void\s+DataSet::setExtent\s*\(', cls='DataSet', cls_file='backend/hdf5/h5x/H5DataSet.hpp', classes=['NDSize', 'DataSet', 'DataSpace', 'HErr'],
+    inherited_members=['hid'])
+JOBS.append(dict(name='DataSet_setExtent', bodies=['NDSize_size', 'DataSet_setExtent'], enforce=['DataSet_setExtent'], replace=[], includes=['nd.h', 'c01_extent.h'],
+                 extra_c='size_t gh_cur_rank; ndsize_t *gh_cur_dims; int gh_set_calls, gh_set_refused; long gh_set_hid; const ndsize_t *gh_set_dims;\n', cbmc_flags=UNW, expect_kinds=['postcondition'], timeout=300))
+SPEC = dict(contracts=['nd.h', 'dv.h', 'c01_append.h', 'c01_read.h', 'c01_extent.h'], stubs=['dataarray.h'], include_order=['nd.h', 'dataarray.h', 'dv.h', 'c01_append.h'], units=UNITS, jobs=JOBS,
             trusted_base=['CBMC 6.11.0 (C front end, --dfcc, SAT back end)', 'vlib/cxx2c.py idiom map'] + ND_TRUST +
                          ['back end of the DataArray (dataExtent getter/setter, setData) is a ghost record of what it was asked to do'],
             assumptions=['kernel only: appendData\'s extent/offset arithmetic and its rejection conditions; quick tier ranks 0..4 (the property quantifies over ranks 1..4), thorough tier 0..32',
